@@ -37,7 +37,9 @@ MANIFEST_ENTRY = {
         "0..count-1 with the same times (oob_list, oob_same_schedule), crc(m ++ crc m) = 0 for every message "
         "(crc_residue), parse(encode sig) = sig with valid CRC and exact section/command/descriptor lengths "
         "for every well-formed signal (scte35_roundtrip), and the encoded event decodes to the schedule's id, "
-        "PTS mod 2^33 and break duration (scte35_matches_schedule). The hand-written model is tied to the "
+        "PTS mod 2^33 and break duration (scte35_matches_schedule); the text of every integer event option is "
+        "read as exactly the integer it spells, for any magnitude, and decimal/exponent spellings are refused "
+        "(evopt_exact, evopt_interval_exact). The hand-written model is tied to the "
         "code on every run by differential correspondence channels and an independent oracle."),
     "level_note": (
         "Trusted: Lean kernel (+propext, Classical.choice, Quot.sound), the correspondence harness and compiled "
@@ -439,6 +441,120 @@ def ch_oob(ctx):
     return ch
 
 
+# ============================================================ channel evopt
+
+def event_int_options():
+    """(cgi name, real from_string, default, positive?) of every integer event option"""
+    from dashlive.server.events.ping_pong import PingPongEvents
+    from dashlive.server.events.scte35_events import Scte35Events
+    out = []
+    for cls in (PingPongEvents, Scte35Events):
+        for opt in cls.get_dash_options():
+            dflt = cls.DEFAULT_VALUES.get(opt.full_name)
+            if isinstance(dflt, int) and not isinstance(dflt, bool):
+                out.append((opt.cgi_name, opt.from_string, dflt, opt.full_name == "interval"))
+    return out
+
+
+def evopt_real(from_string, text: str) -> str:
+    try:
+        v = from_string(text)
+    except ValueError:
+        return "ValueError"
+    except Exception as e:
+        return f"exception:{type(e).__name__}"
+    return f"ok:{v}" if type(v) is int else f"ok-not-int:{v!r}"
+
+
+def evopt_oracle(from_string, n: int, positive: bool):
+    """C14 at the option boundary: the schedule the server uses is the one that was requested –
+    the canonical decimal spelling of n is read as exactly n (or refused: interval < 1)"""
+    got = evopt_real(from_string, str(n))
+    want = "ValueError" if positive and n < 1 else f"ok:{n}"
+    return None if got == want else f"option text {str(n)!r} read as {got}, expected {want}"
+
+
+def gen_evopt_text(rng):
+    """(text, canonical value or None)"""
+    k = rng.random()
+    if k < .45:
+        n = E.boundary_value(rng)
+    elif k < .6:
+        n = rng.choice([0, 1, 2, 7, 100, 1000, 90000, 10 ** 6, 10 ** 7])
+    elif k < .8:
+        n = rng.randrange(0, 2 ** rng.choice([8, 31, 53, 54, 60, 64, 70]))
+    else:
+        n = rng.randrange(2 ** 53, 2 ** 64) | 1
+    if rng.random() < .15:
+        n = -n
+    k = rng.random()
+    if k < .55:
+        return str(n), n
+    if k < .8:     # other spellings int() accepts
+        return rng.choice([f" {n}", f"{n} ", f"\t{n}\n", f"+{abs(n)}", f"{n:_}", f"000{abs(n)}", f"{abs(n):_} "]), None
+    # spellings int() refuses
+    return rng.choice([f"{n}.0", f"{n}e0", f"{n}.", "9e4", "1e3", "1000.0", "1.5", "0x10", "1__0", "_1", "1_", "--1",
+                       "+-1", "1 0", "12abc", "nan", "inf", "1e400", " ", "-", "+", "None", "NONE", "none ", "",
+                       "none", f"{n}L", f"{abs(n)}_"]), None
+
+
+def ch_evopt(ctx):
+    ch = Channel("evopt", rule=(
+        "every integer event option (ping__/scte35__ start, interval, count, duration, timescale, version, "
+        "program_id): the real DashOption.from_string on option texts – canonical decimals from the boundary pool "
+        "(2^31, 2^32, 2^33, 2^53, 2^54, 2^55, 2^62 +-1, odd values above 2^53, 2^63-1, random up to 2^70, "
+        "negatives), the other spellings int() accepts (white space, sign, underscores, leading zeros) and the "
+        "spellings it refuses (decimal point, exponent, hex, empty sign ...) – vs Lean parseEventInt; oracle: the "
+        "canonical decimal of n is read as exactly n; non-trivial = |value| >= 2^53 or a non-canonical spelling; "
+        "distinct by (option, text)"))
+    rng = ctx.rng("evopt")
+    try:
+        opts = event_int_options()
+    except Exception as e:
+        ch.errors.append(f"event options: {type(e).__name__}: {e}")
+        return ch
+    if len(opts) < 13:
+        ch.errors.append(f"only {len(opts)} integer event options found")
+    jobs, lines = [], []
+    fixed = [(str(v), v) for v in E.BOUNDARY] + [("1000.0", None), ("9e4", None), ("", None), ("none", None)]
+    for name, fs, dflt, positive in opts:
+        texts = list(fixed) + [gen_evopt_text(rng) for _ in range(ctx.scale(60, 1200))]
+        for text, n in texts:
+            if any(ord(c) > 127 for c in text):
+                continue
+            jobs.append((name, fs, dflt, positive, text, n))
+            lines.append(f"evopt {1 if positive else 0} {dflt} {text.encode().hex() or '-'}")
+    try:
+        model = E.run_driver(lines)
+        # the theorems evopt_exact / evopt_interval_exact speak about `decimalOf z`: it is Python's str(z)
+        canon = sorted({n for *_x, n in jobs if n is not None})
+        dec = E.run_driver([f"evdec {n}" for n in canon])
+    except Exception as e:
+        ch.errors.append(f"driver: {e}")
+        return ch
+    for n, d in zip(canon, dec):
+        ch.evaluations += 1
+        ch.count("decimalOf vs str")
+        if d != str(n):
+            ch.disagreements.append({"channel": "evopt", "what": "decimalOf", "value": n, "model": d, "impl": str(n)})
+    for (name, fs, dflt, positive, text, n), mo in zip(jobs, model):
+        ch.evaluations += 1
+        impl = evopt_real(fs, text)
+        ch.count("canonical decimal" if n is not None else ("refused spelling" if mo == "ValueError" else "other accepted spelling"))
+        if n is None or abs(n) >= 2 ** 53:
+            ch.nontrivial.add((name, text))
+        if n is not None and abs(n) > 2 ** 53 and n % 2:
+            ch.count("odd value above 2^53")
+        if impl != mo:
+            ch.disagreements.append({"channel": "evopt", "option": name, "text": text, "model": mo, "impl": impl})
+        if n is not None:
+            msg = evopt_oracle(fs, n, positive)
+            if msg:
+                ch.oracle_failures.append({"channel": "evopt", "option": name, "value": n, "failures": [msg]})
+        ch.sample({"option": name, "text": text, "result": impl}, limit=3)
+    return ch
+
+
 # ============================================================ channel scte35
 
 def scte35_oracle(sig: dict) -> list:
@@ -589,6 +705,7 @@ def channels(ctx):
     for ch in ch_emsg(ctx):
         yield ch
     yield ch_oob(ctx)
+    yield ch_evopt(ctx)
     yield ch_scte35(ctx)
     yield ch_e2e(ctx)
 
@@ -621,6 +738,16 @@ def search(ctx, disagreements):
             f = c14_e2e.oracle_case(d["case"])
             if f:
                 return {"channel": "events_e2e", "case": d["case"], "failures": f}
+        if d.get("channel") == "evopt":
+            try:
+                n = int(d["text"], 10)
+            except ValueError:
+                continue
+            for name, fs, dflt, positive in event_int_options():
+                if name == d["option"]:
+                    msg = evopt_oracle(fs, n, positive)
+                    if msg:
+                        return {"channel": "evopt", "option": name, "value": n, "failures": [msg]}
     # 2. widen
     for _ in range(ctx.scale(15000, 60000)):
         c = E.gen_case(rng, True)
@@ -648,6 +775,14 @@ def search(ctx, disagreements):
         if f:
             return {"channel": "oob", "event": event, "sched": s, "failures": f}
     try:
+        for name, fs, dflt, positive in event_int_options():
+            for n in E.BOUNDARY + [-v for v in E.BOUNDARY] + [rng.randrange(2 ** 53, 2 ** 64) | 1 for _ in range(200)]:
+                msg = evopt_oracle(fs, n, positive)
+                if msg:
+                    return {"channel": "evopt", "option": name, "value": n, "failures": [msg]}
+    except Exception:
+        pass
+    try:
         import c14_e2e
         return c14_e2e.search(ctx)
     except Exception:
@@ -669,6 +804,12 @@ def _replay_failure(f: dict) -> list:
     if chn == "events_e2e" and "case" in f:
         import c14_e2e
         return c14_e2e.oracle_case(f["case"])
+    if chn == "evopt" and "value" in f:
+        for name, fs, dflt, positive in event_int_options():
+            if name == f["option"]:
+                msg = evopt_oracle(fs, int(f["value"]), positive)
+                return [msg] if msg else []
+        return [f"option {f['option']} no longer exists"]
     if chn == "crc":
         from crccheck.crc import Crc32Mpeg2
         m = bytes.fromhex(f["msg"])
